@@ -1,4 +1,5 @@
 import PoolModel.C10Account
+import PoolModel.Dec.Ticket
 /-! C10 – orders in the trader database (/repo/clientdb/order.go): `SerializeOrder` / `DeserializeOrder`, the
 per-order keys `order`, `order-min-units-match`, `order-tlv`, `order-tier` (`SubmitOrder`'s `store…TX` helpers,
 `fetchOrderTX` + the `GetOrder` callback), `serializeOrderTlvData` / `deserializeOrderTlvData`, and the sidecar
@@ -7,8 +8,11 @@ bid template (`storeBidTemplate` / `readBidTemplate` of clientdb/sidecar.go, whi
 Field order of the base encoding, the TLV record order and every TLV type number come from the regenerated
 lists (`Pool.Gen.Store`); `kitTbl`, `orderTlvVars`, `orderTlvKinds` give each Go expression its meaning.
 
-Abstraction: a `*sidecar.Ticket` is the byte string `sidecar.SerializeTicket` produces for it (that codec is
-property C15); `sidecar.DeserializeTicket` is assumed to invert it and is not modelled. -/
+A `*sidecar.Ticket` embedded in a bid is identified with the byte string `sidecar.SerializeTicket` produces for
+it. Reading runs the **C15 ticket codec model** (`Pool.Dec.deserializeTicket` with the decode variants the current
+source uses, then `Pool.Dec.serializeTicket` to get the identifying bytes back), so an embedded blob that
+`sidecar.DeserializeTicket` rejects is rejected here too; `Order.WF` asks the blob to be canonical
+(`ticketCanonical`, decidable) – that every serialised well-formed ticket is canonical is property C15. -/
 namespace Pool.C10
 open Pool.Gen
 
@@ -200,20 +204,39 @@ def serializeOrderTlvData (o : Order) : Bytes := encStream (tlvRecsOf "serialize
 
 abbrev TlvMap := List (Nat × Option TlvVal)
 
-/-- the type-specific part of `deserializeOrderTlvData` (`switch castOrder := o.(type)`) -/
-def applyTypeTlv (m : TlvMap) : Order → Order
+/-- `sidecar.DeserializeTicket(bytes.NewReader(sidecarTicket))`; the resulting ticket is represented by its
+serialisation (what `SerializeTicket` would write for it again) -/
+def readTicket (b : Bytes) : Res Bytes :=
+  match Pool.Dec.deserializeTicket (Pool.Dec.repoCfg maxAlloc) b with
+  | .ok t =>
+    match Pool.Dec.serializeTicket t with
+    | .ok b' => .ok b' []
+    | .err _ => .err
+    | .panic => .panic
+  | .err _ => .err
+  | .panic => .panic
+
+/-- the blob is what `SerializeTicket` writes for the ticket it decodes to -/
+def ticketCanonical (b : Bytes) : Bool := readTicket b == .ok b []
+
+/-- the type-specific part of `deserializeOrderTlvData` (`switch castOrder := o.(type)`); fails when the embedded
+sidecar ticket does not decode -/
+def applyTypeTlv (m : TlvMap) : Order → Res Order
   | .ask k a c =>
     let a := (parsedNum m (tlvType "askChannelAnnouncementConstraintsType")).getD a
     let c := (parsedNum m (tlvType "askChannelConfirmationConstraintsType")).getD c
-    .ask k a c
+    .ok (.ask k a c) []
   | .bid k t scb tk u z =>
     let scb := (parsedNum m (tlvType "bidSelfChanBalanceType")).getD scb
-    let tk := match parsedBytes m (tlvType "bidSidecarTicketType") with
-      | some b => some b
-      | none => tk
     let u := if parsedNum m (tlvType "bidUnannouncedChannelType") = some 1 then true else u
     let z := if parsedNum m (tlvType "bidZeroConfType") = some 1 then true else z
-    .bid k t scb tk u z
+    match parsedBytes m (tlvType "bidSidecarTicketType") with
+    | some b =>
+      match readTicket b with
+      | .ok b' _ => .ok (.bid k t scb (some b') u z) []
+      | .err => .err
+      | .panic => .panic
+    | none => .ok (.bid k t scb tk u z) []
 
 /-- the common part: channel type, node id lists, auction type, public flag -/
 def applyKitTlv (m : TlvMap) (k : Kit) : Option Kit := do
@@ -236,10 +259,13 @@ def applyKitTlv (m : TlvMap) (k : Kit) : Option Kit := do
 def deserializeOrderTlvData (tlvData : Bytes) (o : Order) : Res Order :=
   match decodeStream (tlvKnownOf "deserializeOrderTlvData" orderTlvKinds) tlvData with
   | .ok m _ =>
-    let o := applyTypeTlv m o
-    match applyKitTlv m o.kit with
-    | some k => .ok (o.setKit k) []
-    | none => .err
+    match applyTypeTlv m o with
+    | .ok o _ =>
+      match applyKitTlv m o.kit with
+      | some k => .ok (o.setKit k) []
+      | none => .err
+    | .err => .err
+    | .panic => .panic
   | .err => .err
   | .panic => .panic
 
@@ -310,17 +336,17 @@ def Kit.WF (k : Kit) : Prop :=
 instance decKitWF : Decidable (Kit.WF k) := by unfold Kit.WF; infer_instance
 
 /-- Encodable domain of a stored order: field widths (the auction type within the single byte the format keeps),
-32/33-byte arrays, constraint enums a byte, ticket blob below the allocation bound. Every order version, state
+32/33-byte arrays, constraint enums a byte, ticket blob a canonical ticket serialisation below the allocation bound. Every order version, state
 value and combination of optional terms is inside. -/
 def Order.WF : Order → Prop
   | .ask k a c => k.WF ∧ WFu8 a ∧ WFu8 c
   | .bid k t s tk _ _ => k.WF ∧ WFu32 t ∧ WFu64 s ∧
     (match tk with
-     | some b => b.length < 2 ^ 48
+     | some b => b.length < 2 ^ 48 ∧ ticketCanonical b = true
      | none => True)
 instance decOrderWF : (o : Order) → Decidable o.WF
   | .ask k a c => inferInstanceAs (Decidable (k.WF ∧ WFu8 a ∧ WFu8 c))
-  | .bid k t s (some b) _ _ => inferInstanceAs (Decidable (k.WF ∧ WFu32 t ∧ WFu64 s ∧ b.length < 2 ^ 48))
+  | .bid k t s (some b) _ _ => inferInstanceAs (Decidable (k.WF ∧ WFu32 t ∧ WFu64 s ∧ b.length < 2 ^ 48 ∧ ticketCanonical b = true))
   | .bid k t s none _ _ => inferInstanceAs (Decidable (k.WF ∧ WFu32 t ∧ WFu64 s ∧ True))
 
 end Pool.C10
